@@ -1373,3 +1373,64 @@ def rf117(run):
                               'with ref_def == NULL and the %s does not refer to it either: until MIR_link runs nothing leads from it to the '
                               'definition (mir2c prints no declaration for a function used through it)' % (ik[4:-5], tk[4:-5], tk[4:-5]), line=f.line)
     return n
+
+
+# ---------------------------------------------------------------------------------------------
+# RF120: a growth loop grows the vector whose length it tests
+# ---------------------------------------------------------------------------------------------
+
+def rf120(run, units=('gen', 'mir')):
+    rule = 'RF120'
+    run.rule(rule, 'vectors that live as long as the context are grown on demand by `while (VARR_LENGTH (W) <= bound) VARR_PUSH (W, …)`.  A second '
+                   'vector pushed in the same loop only under a condition (e.g. "when optimising") ends up shorter than W; a later '
+                   'activation that finds W long enough skips the loop and indexes the second vector beyond its length.  Every vector '
+                   'pushed conditionally inside such a loop is the one whose length the loop tests')
+    n = 0
+    for u in units:
+        tu = run.tu(u)
+        for g in tu.func_list:
+            if not g.file.startswith('/repo') or g.body is None:
+                continue
+            for w in g.walk():
+                if w['k'] != 'WhileStmt' or w['c'][0] is None:
+                    continue
+                cond = F.strip(w['c'][0])
+                if not (cond['k'] == 'BinaryOperator' and cond['op'] in ('<=', '<', '>', '>=')):
+                    continue
+                lens = [F.src(F.strip(F.call_args(y)[0])) for y in F.walk(cond)
+                        if y['k'] == 'CallExpr' and (y.get('callee') or '').startswith('VARR_') and (y.get('callee') or '').endswith('length')]
+                if len(lens) != 1:
+                    continue
+                pushes = [y for y in F.walk(w['c'][1]) if y['k'] == 'CallExpr' and (y.get('callee') or '').startswith('VARR_')
+                          and (y.get('callee') or '').endswith('push')]
+                if not any(F.src(F.strip(F.call_args(y)[0])) == lens[0] for y in pushes):
+                    continue          # not a growth loop of W
+                n += 1
+                run.functions_analysed.add((u, g.name))
+                bad = []
+                for y in pushes:
+                    v = F.src(F.strip(F.call_args(y)[0]))
+                    if v == lens[0]:
+                        continue
+                    # conditional inside the loop body?
+                    x = y
+                    cond_p = False
+                    while x is not None and x is not w:
+                        p_ = g.parent_of(x)
+                        if p_ is not None and p_['k'] in ('IfStmt', 'ConditionalOperator') and p_ is not w:
+                            cond_p = True
+                        x = p_
+                    if cond_p:
+                        bad.append((v, y))
+                run.ob(rule, (g.name, w['l']), not bad, {'site': '%s:%d %s' % (g.relfile(), w['l'], g.name), 'tested': lens[0],
+                                                         'pushed': sorted({F.src(F.strip(F.call_args(y)[0])) for y in pushes})} if n % 4 == 1 or bad else None)
+                for v, y in bad:
+                    run.violation(rule, g, 'conditional growth of %s' % v.split('->')[-1], 'the loop at line %d grows `%s` until it reaches the bound, '
+                                  'but pushes to `%s` only under a condition: after an activation in which the condition was false `%s` is '
+                                  'shorter, and the next activation that finds `%s` long enough indexes `%s` beyond its length (generate a '
+                                  'function at -O0, then a smaller one at -O2 in the same generator: SIGSEGV)' %
+                                  (w['l'], lens[0].split('->')[-1], v.split('->')[-1], v.split('->')[-1], lens[0].split('->')[-1], v.split('->')[-1]),
+                                  line=y['l'])
+    if n < 8:
+        raise F.AnalysisBroken('RF120: only %d growth loops found' % n)
+    return n
